@@ -1,5 +1,7 @@
 package sim
 
+import "time"
+
 // C15 — state check and restore tell the truth about everything the mint ever did.
 
 func init() {
@@ -15,6 +17,9 @@ func coreC15(tier string) []RunSpec {
 	for k := 0; k < n; k++ {
 		out = append(out, RunSpec{Profile: "core:concurrent", Params: map[string]int{"conc": 1, "k": k}})
 		out = append(out, RunSpec{Profile: "core:history", Params: map[string]int{"conc": 0, "k": k}})
+	}
+	for k := 0; k < 6; k++ {
+		out = append(out, RunSpec{Profile: "core:late-resolution", Params: map[string]int{"conc": 0, "late": 1, "k": k}})
 	}
 	return out
 }
@@ -32,9 +37,27 @@ func runC15(rc *RunCtx) {
 	m.Fees = map[string][]uint64{"A": {uint64(fee), 100}}
 	m.Locks = true
 	rc.Quietly(func() { m.User.Fund("A", 255); m.User.Fund("A", 100) })
+	if rc.P("late", 0) == 1 {
+		// a payment that outlives its quote's expiry: pending, two hours pass, it resolves, and the
+		// state check must follow (k even: success, odd: failure is drawn by StepResolve)
+		for i := 0; i < 2+rc.P("k", 0)%2; i++ {
+			m.step = -10 + i
+			rc.W.LN.ForceNextPay = "pending"
+			m.StepMelt()
+		}
+		rc.W.LN.ForceNextPay = ""
+		rc.Op("clock+2h")
+		rc.S.Sleep(2 * time.Hour)
+		for i := 0; i < 3; i++ {
+			m.step = -5 + i
+			m.StepResolve()
+			m.StepCheckstate()
+		}
+		rc.S.Probe("c15_late_resolution")
+	}
 	conc := rc.P("conc", -1)
 	// weights:       fund swap melt resolve replay dup race checkstate restore restart clock adv internal rotate
-	weights := []int{1, 3, 3, 2, 1, 0, 0, 5, 4, 1, 0, 0, 1, 0, 1}
+	weights := []int{1, 3, 3, 2, 1, 0, 0, 5, 4, 1, 2, 0, 1, 0, 1} // clock jumps: payments may outlive their quote's expiry
 	rc.StepLoop(4, 16, func(i int) {
 		m.step = i
 		c := T.Chance("conc", 1, 3)
